@@ -90,8 +90,9 @@ fn check_pattern_exhaustiveness_stmt(statics: &mut StaticsContext, stmt: &Stmt) 
             check_pattern_exhaustiveness_expr(statics, lhs);
             check_pattern_exhaustiveness_expr(statics, expr);
         }
-        StmtKind::Let(_, _, expr) => {
+        StmtKind::Let(_, (pat, _), expr) => {
             check_pattern_exhaustiveness_expr(statics, expr);
+            binding_pat_irrefutable_check(statics, pat);
         }
         StmtKind::Expr(expr) => {
             check_pattern_exhaustiveness_expr(statics, expr);
@@ -108,8 +109,9 @@ fn check_pattern_exhaustiveness_stmt(statics: &mut StaticsContext, stmt: &Stmt) 
                 check_pattern_exhaustiveness_stmt(statics, statement);
             }
         }
-        StmtKind::ForLoop(_, iterable, statements) => {
+        StmtKind::ForLoop(pat, iterable, statements) => {
             check_pattern_exhaustiveness_expr(statics, iterable);
+            binding_pat_irrefutable_check(statics, pat);
             for statement in statements {
                 check_pattern_exhaustiveness_stmt(statics, statement);
             }
@@ -1027,6 +1029,30 @@ fn match_expr_exhaustive_check(
             node,
             redundant_arms,
         })
+    }
+}
+
+// the pattern of a `let` or `for` binds without testing, so it has to match every value of
+// its type: it is checked as a match with that single arm
+fn binding_pat_irrefutable_check(statics: &mut StaticsContext, pat: &Rc<Pat>) {
+    let Some(ty) = statics.solution_of_node(pat.node()) else {
+        return;
+    };
+    let mut matrix = Matrix {
+        rows: vec![MatrixRow {
+            pats: vec![DeconstructedPat::from_ast_pat(statics, pat)],
+            parent_row: 0,
+            useful: false,
+        }],
+        types: vec![ty],
+    };
+    let witness_matrix = compute_exhaustiveness_and_usefulness(statics, &mut matrix);
+    if !witness_matrix.first_column().is_empty() {
+        statics.errors.push(Error::GenericWithNode {
+            msg: "This pattern does not match every value of its type. Use a match expression"
+                .to_string(),
+            node: pat.node(),
+        });
     }
 }
 
